@@ -215,18 +215,22 @@ package PVM
 
 //@ func (*Program).preDecodeBlocks
 //@   props C03
-//@   assigns everything
+//@   assigns *p
+//@   opt skipcover=1
 //@   ensures keep: p.InstructionData == old(p.InstructionData) && p.Bitmasks == old(p.Bitmasks) && p.JumpTable == old(p.JumpTable)
 //@   requires wf: p != nil && len(p.Bitmasks) == len(p.InstructionData) && len(p.InstructionData) < 4294967000
 //@   loop rangeindex#0
 //@     invariant range: rangeindex >= -1 && rangeindex < len(p.InstrIdxAt)
 //@     invariant keep: p.InstructionData == old(p.InstructionData) && p.Bitmasks == old(p.Bitmasks) && p.JumpTable == old(p.JumpTable)
+//@     invariant frame: frame_only(*p) && fresh(p.InstrIdxAt)
 //@   loop pc#0
 //@     invariant lens: len(p.InstrIdxAt) == len(idata) && len(p.BlockAt) == len(idata)
 //@     invariant keep: p.InstructionData == old(p.InstructionData) && p.Bitmasks == old(p.Bitmasks) && p.JumpTable == old(p.JumpTable)
+//@     invariant frame: frame_only(*p) && fresh(p.InstrIdxAt) && fresh(p.BlockAt) && (p.Instrs == nil || fresh(p.Instrs))
 //@   loop pc#1
 //@     invariant lens: len(p.InstrIdxAt) == len(idata) && len(p.BlockAt) == len(idata)
 //@     invariant keep: p.InstructionData == old(p.InstructionData) && p.Bitmasks == old(p.Bitmasks) && p.JumpTable == old(p.JumpTable)
+//@     invariant frame: frame_only(*p) && fresh(p.InstrIdxAt) && fresh(p.BlockAt) && (p.Instrs == nil || fresh(p.Instrs)) && fresh(block)
 
 //@ func MakeBitMasks
 //@   props C03
@@ -245,7 +249,6 @@ package PVM
 
 //@ func DeBlobProgramCode
 //@   props C03
-//@   assigns everything
 //@   requires size: len(data) < 4294967000
 //@   ensures wf: result1 == ExitContinue ==> wf_code_v(result0) && wf_jt_v(result0)
 //@ pred wf_code_v(p) = len(p.Bitmasks) == len(p.InstructionData) && len(p.Bitmasks) < 4294967296
